@@ -18,6 +18,7 @@ use std::cell::Cell;
 use std::time::{Duration, Instant};
 
 pub mod rtp;
+pub mod ice;
 
 // ---------------------------------------------------------------------------------------------
 // counting allocator
@@ -218,6 +219,7 @@ pub fn fuzz_target(run: &mut Run, t: &Target, rng: &mut Rng, budget: u64, thorou
 pub fn all_targets() -> Vec<Target> {
     let mut v = vec![];
     v.extend(rtp::targets());
+    v.extend(ice::targets());
     v
 }
 
@@ -236,6 +238,7 @@ fn replay(case: &str) {
         }
     }
     if !done { done = rtp::replay_special(&mut run, stream, &args); }
+    if !done { done = ice::replay_special(&mut run, stream, &args); }
     if !done { println!("unknown stream {stream}"); }
     for f in &run.fails { println!("ORACLE-FAIL {} :: {}", f.signature, f.detail); }
     let _ = std::fs::remove_dir_all("/tmp/c07-replay");
@@ -253,6 +256,7 @@ pub fn run(args: &Args) {
         fuzz_target(&mut run, t, &mut r, per_unit * t.weight, args.tier_thorough);
     }
     rtp::special(&mut run, &mut rng.fork(), args.tier_thorough);
+    ice::special(&mut run, &mut rng.fork(), args.tier_thorough);
     run.notes.insert("targets".into(), serde_json::json!(targets.iter().map(|t| t.stream).collect::<Vec<_>>()));
     run.notes.insert("type_sizes".into(), rtp::type_sizes());
     run.finish();
